@@ -48,9 +48,63 @@ def obs_class(ctx, res, args, label):
                         "lookup_paths": [p["name"] for p in r["paths"]]}, cap=4)
 
 
+def gen_class(ctx, res, stride, offset, label):
+    """F leg: TLC enumerates the class vocabulary of Gen_Class.tla (ordered pairs of parts x negation x subtraction x IgnoreCase x dialect)
+    and predicts the members among the domain runes; the replayer builds, compiles and probes each class on the real engine"""
+    vocab = json.loads(ctx.run_vh(["class-vocab"]).stdout)
+    params = {"parts": [{k: p[k] for k in ("rs", "cats", "shs", "posix", "dias")} for p in vocab["parts"]], "subs": vocab["subs"], "dom": vocab["dom"],
+              "dias": vocab["dias"], "stride": stride, "offset": offset}
+    ppath = os.path.join(ctx.dir, f"classvocab-{label}.json")
+    json.dump(params, open(ppath, "w"))
+    out = ctx.tlc("Gen_Class", "Obs.cfg", env_extra={"VERIF_PARAMS": ppath}, timeout=3000)
+    lines = [l for l in out["raw"].splitlines() if l.startswith('<<"C"')]
+    if not lines:
+        raise vlib.Broken("Gen_Class predicted nothing")
+    # binding self-test: one prediction with a member removed / added must be reported
+    first = json.loads(json.loads(lines[0][len('<<"C", '):-2]))
+    first["members"] = first["members"][1:] if first["members"] else [65]
+    first["id"] = first["id"] + 2 * 10 ** 6     # keeps the parity (bitmap choice)
+    gpath = os.path.join(ctx.dir, f"classgen-{label}.txt")
+    open(gpath, "w").write("\n".join(['<<"C", ' + json.dumps(json.dumps(first)) + '>>'] + lines) + "\n")
+    d = json.loads(ctx.run_vh(["replay-class", "-i", gpath]).stdout)
+    os.remove(gpath)
+    if d["classes"] != len(lines) + 1:
+        raise vlib.Broken(f"replayer consumed {d['classes']} of {len(lines) + 1} predictions")
+    orig = json.loads(json.loads(lines[0][len('<<"C", '):-2]))
+    mm = d["mismatches"]
+    # the corrupted copy prints the same class text as the original; with the original correct there is exactly one more
+    # mismatch for that text than the original alone would give
+    ctx.log(f"{label}: classes={d['classes'] - 1} probes={d['cases']} nontrivial={d['nontrivial']} mismatches={len(mm)} (incl. the self-test)")
+    selfhit = False
+    for m in mm:
+        if not selfhit and m["rule"] == "class.membership" and m["ignore_case"] == orig["ic"] and m["dialect"] == orig["dia"] and \
+                m["runes_disagreeing"] == 1 and m["class"] == class_text(vocab, orig):
+            selfhit = True
+            continue
+        res.violation(m)
+    if not selfhit:
+        raise vlib.Broken("binding self-test failed: the replayer accepted a corrupted class prediction")
+    res.evaluations += d["cases"]
+    res.nontrivial += d["nontrivial"]
+    res.traces += d["classes"] - 1
+    res.add_sample({"leg": "F " + label, "parts": [p["text"] for p in vocab["parts"]], "domain_runes": d["domain"], "classes": d["classes"] - 1}, cap=7)
+
+
+def class_text(vocab, r):
+    t = "[" + ("^" if r["neg"] else "") + vocab["parts"][r["p1"] - 1]["text"]
+    if r["p2"] > 0:
+        t += vocab["parts"][r["p2"] - 1]["text"]
+    if r["sub"] > 0:
+        t += "-" + vocab["subtexts"][r["sub"] - 1]
+    return t + "]"
+
+
 def run(ctx, res):
     ctx.build()
-    res.rule = ("class expressions from a random class grammar (single characters incl. escapes, ASCII/Latin/Greek/BMP/astral ranges, \\d\\D\\w\\W\\s\\S, "
+    res.rule = ("F: Gen_Class enumerates EVERY class built from an ordered pair (or one) of 22 parts (letters with unusual case orbits a k s U+0130 U+212A U+03A3 U+01C5, A-Z, the two "
+                "blocks that leave exactly A-Z out, \\w \\W \\d \\S \\s, \\p{Lu} \\P{Lu} \\p{Ll} \\P{Lt}, [:upper:] [:^upper:] [:^alpha:]) x negation x {no subtraction, [a], [A-Z], [k], [\\w], [^a]} x IgnoreCase x "
+                "{default, RE2, ECMAScript} (27 024 classes; quick tier: every second one) and predicts the members among 185 domain runes; the replayer prints the parts in the given order and probes the real engine "
+                "(ASCII bitmap on/off alternating). B: class expressions from a random class grammar (single characters incl. escapes, ASCII/Latin/Greek/BMP/astral ranges, \\d\\D\\w\\W\\s\\S, "
                 "\\p{..}/\\P{..} over 29 categories and scripts, POSIX names in RE2 mode, negation, nested subtraction) x IgnoreCase x {default, RE2, ECMAScript} "
                 "x ASCII bitmap on/off. The real membership is recorded for ALL 1 114 112 runes (\\A[..]\\z on one rune) and, on a sample domain, for 6 more "
                 "lookup paths (parsed CharSet.CharIn, loop, lazy loop, prefix-set search, after a loop, alternation, right-to-left). TLC compares with "
@@ -58,7 +112,11 @@ def run(ctx, res):
                 "everywhere); thorough: also pointwise over whole ranges. evaluations = (class, rune) pairs compared by TLC; non-trivial = classes that are neither empty nor full on the compared domain")
     S = 800 + (ctx.seed % 50) * 3
     if ctx.tier == "quick":
-        obs_class(ctx, res, ["-n", "260", "-stream", str(S)], "q")
+        gen_class(ctx, res, 2, ctx.seed % 2, "vocab-half")
+    else:
+        gen_class(ctx, res, 1, 0, "vocab")
+    if ctx.tier == "quick":
+        obs_class(ctx, res, ["-n", "200", "-stream", str(S)], "q")
     else:
         for i in range(4):
             obs_class(ctx, res, ["-n", "1000", "-stream", str(S + i)], f"t{i}")
